@@ -50,5 +50,19 @@ theorem redelegation_queued_twice :
     (reimport wRedel).2.redels = wRedel.redels ∧ (reimport wRedel).2.redelIndex = wRedel.redelIndex := by
   decide
 
+/-- a chain restart rebuilds the asset store exactly, in every state in which it is sorted and keyed by denom — which
+    the custody scope `Core` (an invariant of every history, C01) provides -/
+theorem assets_survive_restart (w w' : World) (h : reimport w = (.ok (), w'))
+    (hs : AL.SortedBy natKeyOrder w.assets) (hk : ∀ p ∈ w.assets, p.2.denom = p.1) : w'.assets = w.assets :=
+  reimport_restores_assets w w' h hs hk
+
+theorem assets_survive_restart_in_scope (d : Denom) (w w' : World) (hc : Core d w) (h : reimport w = (.ok (), w')) :
+    w'.assets = w.assets := reimport_restores_assets w w' h hc.asorted hc.keyed
+
+/-- a chain restart rebuilds the delegation store exactly, in every state in which it is sorted and keyed by
+    (delegator, validator, denom) — which the share ledger `L0` (an invariant of every history, C03) provides -/
+theorem delegations_survive_restart (w w' : World) (hl : L0 w) (h : reimport w = (.ok (), w')) : w'.dels = w.dels :=
+  reimport_restores_delegations w w' h hl.dsorted hl.keyed
+
 end C18
 end Alliance
